@@ -1288,6 +1288,9 @@ class Server:
         async def mlsd_worker(self, connection, rest):
             stream = connection.data_connection
             del connection.data_connection
+            # transfer keeps the speed limits it started with (USER can
+            # replace the session's throttles while it runs)
+            stream.throttles = dict(stream.throttles)
             async with stream:
                 async for path in connection.path_io.list(real_path):
                     s = await self.build_mlsx_string(connection, path)
@@ -1347,6 +1350,9 @@ class Server:
         async def list_worker(self, connection, rest):
             stream = connection.data_connection
             del connection.data_connection
+            # transfer keeps the speed limits it started with (USER can
+            # replace the session's throttles while it runs)
+            stream.throttles = dict(stream.throttles)
             async with stream:
                 async for path in connection.path_io.list(real_path):
                     if not (await connection.path_io.exists(path)):
@@ -1429,6 +1435,9 @@ class Server:
         async def stor_worker(self, connection, rest):
             stream = connection.data_connection
             del connection.data_connection
+            # transfer keeps the speed limits it started with (USER can
+            # replace the session's throttles while it runs)
+            stream.throttles = dict(stream.throttles)
             if connection.restart_offset:
                 file_mode = "r+b"
             else:
@@ -1475,6 +1484,9 @@ class Server:
         async def retr_worker(self, connection, rest):
             stream = connection.data_connection
             del connection.data_connection
+            # transfer keeps the speed limits it started with (USER can
+            # replace the session's throttles while it runs)
+            stream.throttles = dict(stream.throttles)
             file_in = connection.path_io.open(real_path, mode="rb")
             async with stream, file_in:
                 if connection.restart_offset:
